@@ -10,7 +10,7 @@
     schema a reference leads to), and the order in which a map is listed when it is
     marshalled. *)
 From Coq Require Import List NArith ZArith QArith Bool Permutation.
-From JS Require Import Str StrFacts Lit Json JsonFacts Res GoValue Hash Schema CodecBase Codec Basic MarshalFacts Env Ann Validate Spec SpecMono Refine Corollaries SpecPerm OrderFree SchemaRel SchemaPerm.
+From JS Require Import Str StrFacts Lit Json JsonFacts Res GoValue Hash Schema CodecBase Codec Basic MarshalFacts Env Ann Validate Spec SpecMono Refine Corollaries SpecPerm OrderFree SchemaRel SchemaPerm Uri Resolve ResolveRel.
 Import ListNotations.
 
 (** the verdict is the same under every hash function (every seed of every process) *)
@@ -96,6 +96,27 @@ Theorem C14_schema_map_order : forall re_match hash n e e' inst b,
 Proof. exact Validate_map_order. Qed.
 Print Assumptions C14_schema_map_order.
 
+(** Schema.Resolve itself does not depend on the order of the entries of any map of the schema
+    tree or of a document the Loader returns ([lrel]: the same URIs, [srel]-related documents):
+    the same outcome (value, error; never a panic on one side only), the same Loader calls in the
+    same order, and Resolved values related by [erel] - so that, with the theorem above, Resolve
+    followed by Validate gives one verdict whatever order Go's maps are ranged in *)
+Theorem C14_resolve_map_order : forall re_ok fuel root root' baseURI loader loader',
+  srel root root' -> lrel loader loader' ->
+  rrel resrel (Resolve re_ok fuel root baseURI loader) (Resolve re_ok fuel root' baseURI loader').
+Proof. exact Resolve_srel. Qed.
+Print Assumptions C14_resolve_map_order.
+
+Theorem C14_resolve_validate_map_order : forall re_ok re_match hash fuel root root' baseURI loader loader' e calls,
+  srel root root' -> lrel loader loader' ->
+  Resolve re_ok fuel root baseURI loader = Ok (e, calls) ->
+  exists e', Resolve re_ok fuel root' baseURI loader' = Ok (e', calls) /\
+    forall n inst b, gv_wf inst = true -> isValidSchemaVersion (e_version e) = true ->
+      spec_valid re_match n e (den inst) = Some b ->
+      Validate re_match hash n e inst = Validate re_match hash n e' inst.
+Proof. exact Resolve_Validate_map_order. Qed.
+Print Assumptions C14_resolve_validate_map_order.
+
 (** non-vacuity: {"properties": {"a": true, "b": false}, "dependentRequired": {"x": ["a"], "y": []}}
     and the same schema with both maps listed the other way round are related *)
 Lemma srel_empty : srel empty_schema empty_schema.
@@ -117,3 +138,8 @@ Proof.
     exists [(lit "b"%lit, false_schema); (lit "a"%lit, empty_schema)]. split; [apply perm_swap|].
     constructor; [split; [reflexivity|exact srel_false]|]. constructor; [split; [reflexivity|exact srel_empty]|constructor].
 Qed.
+
+(** ... and both resolve (no loader, no base URI, budget 2) *)
+Example C14_resolve_example :
+  exists e e', Resolve (fun _ => true) 2 sA [] None = Ok (e, []) /\ Resolve (fun _ => true) 2 sB [] None = Ok (e', []).
+Proof. eexists. eexists. split; vm_compute; reflexivity. Qed.
